@@ -32,7 +32,7 @@ PROPS["C05"] = dict(
 )
 PROPS["C18"] = dict(
     level="proof",
-    modules=["contracts.c_var_int", "contracts.c_tx"],
+    modules=["contracts.c_var_int", "contracts.c_tx", "contracts.c_fee", "contracts.c_dsa_der"],
     not_decided=["PSBT weight estimate vs signed weight; Decimal conversions"],
     assumptions=[],
     bounded=[],
@@ -55,7 +55,7 @@ PROPS["C01"] = dict(
 
 PROPS["C02"] = dict(
     level="proof",
-    modules=["contracts.c_dsa_der"],
+    modules=["contracts.c_dsa_der", "contracts.c_dsa"],
     not_decided=[],
     assumptions=["HMAC/SHA are functions (uninterpreted)"],
     bounded=[],
